@@ -523,6 +523,94 @@ pub fn cli(args: &[String]) -> bool {
             );
             true
         }
+        "dboracle" => {
+            // the oracle tables the XML and binary MODELS need to run the database's default values through the codecs inside
+            // Coq (Gen/DefaultOracle.v): the Display text of every float component occurring in a default value (and what
+            // parse gives back for it), the byte quantisation of every Color3 channel, b/255 for every byte, and the
+            // blake3 hash of every default SharedString.  Computed by the real functions; regenerated on every run.
+            let db = rbx_reflection_database::get();
+            let out = crate::util::arg_val(args, "--out").unwrap_or_else(|| fail("--out FILE"));
+            let mut f32s: std::collections::BTreeSet<u32> = Default::default();
+            let mut f64s: std::collections::BTreeSet<u64> = Default::default();
+            let mut chans: std::collections::BTreeSet<u32> = Default::default();
+            let mut sstrs: std::collections::BTreeSet<Vec<u8>> = Default::default();
+            sstrs.insert(Vec::new());
+            fn walk(v: &Variant, f32s: &mut std::collections::BTreeSet<u32>, f64s: &mut std::collections::BTreeSet<u64>, chans: &mut std::collections::BTreeSet<u32>, sstrs: &mut std::collections::BTreeSet<Vec<u8>>) {
+                let mut f = |x: f32| {
+                    f32s.insert(x.to_bits());
+                };
+                match v {
+                    Variant::Float32(x) => f(*x),
+                    Variant::Float64(x) => {
+                        f64s.insert(x.to_bits());
+                    }
+                    Variant::Vector2(a) => { f(a.x); f(a.y) }
+                    Variant::Vector3(a) => { f(a.x); f(a.y); f(a.z) }
+                    Variant::Color3(c) => { f(c.r); f(c.g); f(c.b); chans.insert(c.r.to_bits()); chans.insert(c.g.to_bits()); chans.insert(c.b.to_bits()); }
+                    Variant::UDim(u) => f(u.scale),
+                    Variant::UDim2(u) => { f(u.x.scale); f(u.y.scale) }
+                    Variant::Rect(r) => { f(r.min.x); f(r.min.y); f(r.max.x); f(r.max.y) }
+                    Variant::Ray(r) => { f(r.origin.x); f(r.origin.y); f(r.origin.z); f(r.direction.x); f(r.direction.y); f(r.direction.z) }
+                    Variant::NumberRange(r) => { f(r.min); f(r.max) }
+                    Variant::CFrame(c) => {
+                        for x in [c.position.x, c.position.y, c.position.z, c.orientation.x.x, c.orientation.x.y, c.orientation.x.z, c.orientation.y.x, c.orientation.y.y, c.orientation.y.z, c.orientation.z.x, c.orientation.z.y, c.orientation.z.z] { f(x) }
+                    }
+                    Variant::OptionalCFrame(Some(c)) => {
+                        for x in [c.position.x, c.position.y, c.position.z, c.orientation.x.x, c.orientation.x.y, c.orientation.x.z, c.orientation.y.x, c.orientation.y.y, c.orientation.y.z, c.orientation.z.x, c.orientation.z.y, c.orientation.z.z] { f(x) }
+                    }
+                    Variant::PhysicalProperties(rbx_types::PhysicalProperties::Custom(p)) => { f(p.density); f(p.friction); f(p.elasticity); f(p.friction_weight); f(p.elasticity_weight) }
+                    Variant::NumberSequence(s) => { for k in &s.keypoints { f(k.time); f(k.value); f(k.envelope) } }
+                    Variant::ColorSequence(s) => { for k in &s.keypoints { f(k.time); f(k.color.r); f(k.color.g); f(k.color.b); chans.insert(k.color.r.to_bits()); chans.insert(k.color.g.to_bits()); chans.insert(k.color.b.to_bits()); } }
+                    Variant::SharedString(s) => { sstrs.insert(s.data().to_vec()); }
+                    _ => {}
+                }
+            }
+            f32s.insert(0);
+            for c in db.classes.values() {
+                for v in c.default_properties.values() {
+                    walk(v, &mut f32s, &mut f64s, &mut chans, &mut sstrs);
+                }
+            }
+            let mut o = String::new();
+            writeln!(o, "(* GENERATED by `rbxverif dboracle` from rbx_reflection_database::get() and the real functions -- do not edit.").unwrap();
+            writeln!(o, "   Oracle tables for running the database's default values through the codec MODELS inside Coq:").unwrap();
+            writeln!(o, "   Display text of every float component of a default value, its parse, Color3 channel quantisation,").unwrap();
+            writeln!(o, "   b/255 for every byte, blake3 hashes of the default SharedStrings. *)").unwrap();
+            writeln!(o, "From RbxVerif Require Import Base Bytes Db.").unwrap();
+            writeln!(o, "Open Scope N_scope.").unwrap();
+            writeln!(o, "Open Scope string_scope.").unwrap();
+            writeln!(o, "Open Scope list_scope.").unwrap();
+            writeln!(o, "Local Notation B := bytes_of_string (only parsing).").unwrap();
+            writeln!(o, "(* f32 bits -> format!(\"{{}}\", x) for finite non-NaN x; non-finite values are spelled by the writer itself *)").unwrap();
+            writeln!(o, "Definition default_show32 : list (N * bytes) := [").unwrap();
+            let items: Vec<String> = f32s.iter().filter(|b| f32::from_bits(**b).is_finite()).map(|b| format!("  ({}, {})", b, coq_bytes(format!("{}", f32::from_bits(*b)).as_bytes()))).collect();
+            writeln!(o, "{}].", items.join(";\n")).unwrap();
+            writeln!(o, "Definition default_show64 : list (N * bytes) := [").unwrap();
+            let items: Vec<String> = f64s.iter().filter(|b| f64::from_bits(**b).is_finite()).map(|b| format!("  ({}, {})", b, coq_bytes(format!("{}", f64::from_bits(*b)).as_bytes()))).collect();
+            writeln!(o, "{}].", items.join(";\n")).unwrap();
+            writeln!(o, "(* text -> str::parse::<f32>() bits, for exactly the texts above *)").unwrap();
+            writeln!(o, "Definition default_parse32 : list (bytes * N) := [").unwrap();
+            let items: Vec<String> = f32s.iter().filter(|b| f32::from_bits(**b).is_finite()).filter_map(|b| { let t = format!("{}", f32::from_bits(*b)); t.parse::<f32>().ok().map(|x| format!("  ({}, {})", coq_bytes(t.as_bytes()), x.to_bits())) }).collect();
+            writeln!(o, "{}].", items.join(";\n")).unwrap();
+            writeln!(o, "Definition default_parse64 : list (bytes * N) := [").unwrap();
+            let items: Vec<String> = f64s.iter().filter(|b| f64::from_bits(**b).is_finite()).filter_map(|b| { let t = format!("{}", f64::from_bits(*b)); t.parse::<f64>().ok().map(|x| format!("  ({}, {})", coq_bytes(t.as_bytes()), x.to_bits())) }).collect();
+            writeln!(o, "{}].", items.join(";\n")).unwrap();
+            writeln!(o, "(* Color3 channel (f32 bits) -> Color3uint8 channel, by `impl From<Color3> for Color3uint8` *)").unwrap();
+            writeln!(o, "Definition default_quant : list (N * N) := [").unwrap();
+            let items: Vec<String> = chans.iter().map(|b| { let c: rbx_types::Color3uint8 = rbx_types::Color3::new(f32::from_bits(*b), 0.0, 0.0).into(); format!("  ({}, {})", b, c.r) }).collect();
+            writeln!(o, "{}].", items.join(";\n")).unwrap();
+            writeln!(o, "(* byte -> f32 bits of `impl From<Color3uint8> for Color3` *)").unwrap();
+            writeln!(o, "Definition default_unit : list (N * N) := [").unwrap();
+            let items: Vec<String> = (0..=255u8).map(|b| { let c: rbx_types::Color3 = rbx_types::Color3uint8::new(b, 0, 0).into(); format!("  ({}, {})", b, c.r.to_bits()) }).collect();
+            writeln!(o, "{}].", items.join(";\n")).unwrap();
+            writeln!(o, "(* SharedString content -> blake3 hash (SharedString::hash) *)").unwrap();
+            writeln!(o, "Definition default_hash : list (bytes * bytes) := [").unwrap();
+            let items: Vec<String> = sstrs.iter().map(|s| { let h = rbx_types::SharedString::new(s.clone()).hash(); format!("  ({}, {})", coq_bytes(s), coq_bytes(h.as_bytes())) }).collect();
+            writeln!(o, "{}].", items.join(";\n")).unwrap();
+            let changed = write_if_changed(&out, &o);
+            println!("dboracle: f32={} f64={} channels={} shared_strings={} bytes={} {}", f32s.len(), f64s.len(), chans.len(), sstrs.len(), o.len(), if changed { "written" } else { "unchanged" });
+            true
+        }
         _ => lookup::cli(args) || dbdefaults::cli(args),
     }
 }
